@@ -201,7 +201,16 @@ func runServer(c *fw.Ctx) {
 	if e == nil {
 		return
 	}
-	defer e.srv.Stop()
+	defer func() {
+		// Stop waits for every peer to be released; a leaked peer (judged in
+		// server-after) would block it forever, so it gets a bounded wait
+		done := make(chan struct{})
+		go func() { e.srv.Stop(); close(done) }()
+		select {
+		case <-done:
+		case <-time.After(30 * time.Second):
+		}
+	}()
 	// warm-up with one honest peer, then take the baselines
 	warm := false
 	c.Case("server-warmup", map[string]string{"what": "one well-behaved peer"}, func() {
